@@ -93,14 +93,16 @@ write faults (`o.fsize = none`).  Times are in microseconds, the resolution of t
                         be written leaves no trace, what is in its way and everything below it is untouched --, and there is
                         EXACTLY one error record per entry that cannot be written (mutual induction `session_dtree` /
                         `session_dkids`).  Generalises `error_isolated_session` from the top level to any depth.
-* `forward_every_target`, `forward_copy_all_targets`
+* `forward_every_target`, `forward_copy_all_targets`, `forward_target_alone`
                      -- a FORWARD copy to N targets: the product of dsh()'s fan-out LTS (Props/C03, imported) with one
                         receiver per target on that target's own file system (Pcp/FanOut.lean).  In every execution -- any
                         fanout, any schedule, the byte transfers of different targets interleaved in any way -- once dsh()
                         has returned every target of the list has had exactly one connection (`exit_after_all`), has been
                         fed every byte of its client's stream exactly once, and its receiver is in the state `run o fs
                         stream` all other theorems speak about; hence (`copy_roundtrip`, `copy_meets_spec` per target) every
-                        target holds the copy, acknowledged throughout, and passes the specification.
+                        target holds the copy, acknowledged throughout, and passes the specification.  `forward_target_alone`:
+                        in ANY reachable state a target whose worker has begun its tear-down holds the complete result,
+                        wherever the other targets are (slow, hanging, not yet started).
 * Pcp/Statics.lean, Pcp/ClientStatics.lean
                      -- what K receivers (rpdcp) resp. K client threads (pdcp) of one process share besides the file
                         system / the read-only file list: the static objects and the process-wide calls of pcp_server.c and
@@ -1328,6 +1330,22 @@ theorem forward_every_target {v : Fan.Variant} {f : Nat} {ts : List FanOut.Targe
   have := FanOut.fed_count he i r hr
   rw [hg] at this
   exact this.symm
+
+open PdshVerif.Dsh in
+/-- **A target's copy does not wait for, and is not disturbed by, the other targets.**  In ANY reachable state of the
+product -- `dsh()` need not have returned, other targets may be anywhere in their sessions, hang, or never be
+started -- a target whose worker has begun to tear its connection down holds the result of the complete
+single-receiver run, and so does it in every later state (the same statement there). -/
+theorem forward_target_alone {v : Fan.Variant} {f : Nat} {ts : List FanOut.Target} {ls : List FanOut.PLabel}
+    {s : FanOut.PSt} (he : FanOut.PExec ts (FanOut.pinit v f ts) ls s)
+    (i : Nat) (t : FanOut.Target) (ht : ts[i]? = some t) (w : Fan.W) (hw : s.fan.ws[i]? = some w)
+    (hover : FanOut.sessionOver w = true) :
+    s.rcv[i]? = some (run t.o t.fs t.stream, t.stream.length) := by
+  have hinv := FanOut.pinv_exec he
+  have hi : i < ts.length := (List.getElem?_eq_some_iff.1 ht).1
+  have hir : i < s.rcv.length := by rw [hinv.len]; exact hi
+  obtain ⟨r, hr⟩ : ∃ r, s.rcv[i]? = some r := ⟨_, List.getElem?_eq_getElem hir⟩
+  rw [hr, FanOut.good_over hover (hinv.good i t w r ht hw hr)]
 
 open PdshVerif.Dsh in
 /-- **Every reachable target holds a copy** (`copy_roundtrip` and `copy_meets_spec` on every target of the final
